@@ -15,6 +15,7 @@
 -/
 import Verif.Py
 import Verif.Proto
+import Verif.Num
 
 namespace Verif.C09
 open Verif.Py
@@ -293,6 +294,367 @@ def ensembleOls (tracks : List (List Pt)) (dt : Rat) (maxLag : Int) : Except Str
     let essMean := mean (rows.map (·.st.ess))
     olsFromRows (used.map fun r => ⟨r.lag, r.st.mean, 0⟩) n dt false essMean
 
+/-! ### `calculate_localization_error`, `optimal_points`, `determine_optimal_points`,
+    `_determine_optimal_points_ensemble` — the automatic number of lags (`max_lag=None`) -/
+
+/-- what `calculate_localization_error` returns -/
+inductive LocErr where
+  /-- `0` (negative intercept) or `intercept / slope` -/
+  | fin (q : Rat)
+  /-- negative slope, or a positive intercept over a zero slope (IEEE division) -/
+  | inf
+  /-- `0 / 0` -/
+  | nan
+deriving Repr, DecidableEq
+
+/-- `calculate_localization_error(frame_lags, msd)`: `np.polyfit(…, 1)` is the least-squares line; the branches are taken
+    on the SIGNS of intercept and slope. -/
+def locErr (pts : List (Rat × Rat)) : LocErr :=
+  let ab := olsLine pts
+  if ab.1 < 0 then .fin 0
+  else if ab.2 < 0 then .inf
+  else if ab.2 = 0 then (if ab.1 = 0 then .nan else .inf)
+  else .fin (ab.1 / ab.2)
+
+/-- the type of `optimal_points(localization_error, num_points)` → `(num_points_slope, num_points_intercept)`.
+    The theorems hold for EVERY such function; the run uses `optimalPointsF` (Michalet & Berglund's empirical formulas,
+    evaluated in doubles). -/
+abbrev OptPts := LocErr → Nat → Except String (Nat × Nat)
+
+/-- the local variables of `determine_optimal_points` -/
+structure OptState where
+  numSlope : Nat
+  numIntercept : Nat
+  /-- `number_computed`: how many lags the cached MSD curve holds -/
+  numberComputed : Nat
+  /-- the cached `frame_lags, msd` (last `calculate_msd` result) -/
+  rows : List MsdRow
+  /-- `num_slopes` (a set) -/
+  seen : List Nat
+deriving Repr
+
+def optInit (n : Nat) : OptState := ⟨max 2 (n / 10), max 2 (n / 10), 0, [], []⟩
+
+/-- `if required_points > number_computed: frame_lags, msd = calculate_msd(…, required_points)` -/
+def refresh (t : List Pt) (s : OptState) : OptState :=
+  let req := max s.numIntercept s.numSlope
+  if s.numberComputed < req then { s with rows := msdCounts t (some (req : Int)), numberComputed := req } else s
+
+/-- the `for` loop of `determine_optimal_points` (`fuel` iterations left): the MSD curve is recomputed only when more
+    lags are needed than are cached, the fit takes the first `num_slope` cached points; falling out of the loop returns
+    the current pair (with a warning). -/
+def optLoop (op : OptPts) (t : List Pt) : Nat → OptState → Except String (Nat × Nat)
+  | 0, s => .ok (s.numSlope, s.numIntercept)
+  | fuel + 1, s =>
+    let s1 := refresh t s
+    if t.length ≤ 4 then .error "RuntimeError"
+    else match op (locErr (ptsOf (s1.rows.take s1.numSlope))) t.length with
+      | .error e => .error e
+      | .ok nxt =>
+        if nxt.1 ∈ s1.numSlope :: s1.seen then .ok nxt
+        else optLoop op t fuel { s1 with numSlope := nxt.1, numIntercept := nxt.2, seen := s1.numSlope :: s1.seen }
+
+/-- `determine_optimal_points(frame_idx, coordinate)` (`max_iterations = 100`). -/
+def detOpt (op : OptPts) (t : List Pt) : Except String (Nat × Nat) := optLoop op t 100 (optInit t.length)
+
+/-- the loop of `_determine_optimal_points_ensemble(frame_lags, msds, n_coord)` on the complete ensemble curve. -/
+def optLoopEns (op : OptPts) (pts : List (Rat × Rat)) (n : Nat) : Nat → Nat → List Nat → Except String Nat
+  | 0, cur, _ => .ok cur
+  | fuel + 1, cur, seen =>
+    match op (locErr (pts.take cur)) n with
+    | .error e => .error e
+    | .ok nxt => if nxt.1 ∈ cur :: seen then .ok nxt.1 else optLoopEns op pts n fuel nxt.1 (cur :: seen)
+
+def detOptEns (op : OptPts) (pts : List (Rat × Rat)) (n : Nat) : Except String Nat :=
+  optLoopEns op pts n 100 (max 2 (n / 10)) []
+
+/-- `KymoTrack.estimate_diffusion("ols")` (`max_lag=None`): the estimate and the number of lags it reports. -/
+def olsAuto (op : OptPts) (t : List Pt) (dt : Rat) : Except String (Est × Nat) :=
+  match detOpt op t with
+  | .error e => .error e
+  | .ok k => (olsEstimate t dt (k.1 : Int)).map fun e => (e, k.1)
+
+/-- `KymoTrackGroup.ensemble_diffusion("ols")` (`max_lag=None`): all lags of the ensemble MSD, `lags + 1` for the track
+    length, the number of lags from `_determine_optimal_points_ensemble`, the line through `lags[:optimal_lags]`. -/
+def ensembleOlsAuto (op : OptPts) (tracks : List (List Pt)) (dt : Rat) : Except String (Est × Nat) :=
+  match ensembleMsd tracks none 2 with
+  | .error e => .error e
+  | .ok rows =>
+    let n := rows.length + 1
+    match detOptEns op (rows.map fun r => ((r.lag : Rat), r.st.mean)) n with
+    | .error e => .error e
+    | .ok k =>
+      (olsFromRows ((rows.take k).map fun r => ⟨r.lag, r.st.mean, 0⟩) n dt false (mean (rows.map (·.st.ess)))).map
+        fun e => (e, k)
+
+/-! #### `optimal_points` in doubles (the instance the run executes) -/
+
+section
+variable {α : Type} [RealLike α]
+/-- `x ** y` for `x ≥ 0` -/
+def rpow (x y : α) : α := RealLike.exp (y * RealLike.log x)
+def limitA (n : α) : α := 3.0 + rpow (4.5 * rpow n 0.4 - 8.5) 1.2
+def limitB (n : α) : α := 0.8 + 0.564 * n
+def factorA (le : α) : α := 2.0 + 1.6 * rpow le 0.51
+def factorB (le : α) : α := 2.0 + 1.35 * rpow le 0.6
+/-- `f * limit / (f**3 + limit**3) ** (1/3)` -/
+def satur (f lim : α) : α := f * lim / RealLike.cbrt (f * f * f + lim * lim * lim)
+end
+
+/-- a rational as the nearest double (up to 2⁻⁶³ relative), also for numerators / denominators beyond the double range -/
+def ratToFloat (q : Rat) : Float :=
+  let n := q.num.natAbs
+  let d := q.den
+  if n = 0 then 0.0
+  else
+    let shift : Int := 64 + (d.log2 : Int) - (n.log2 : Int)
+    let m : Nat := if 0 ≤ shift then (n <<< shift.toNat) / d else n / (d <<< (-shift).toNat)
+    let f := (Float.ofNat m).scaleB (-shift)
+    if q.num < 0 then -f else f
+
+/-- `int(np.floor(v))` for `v ≥ 0` -/
+def floorNat (v : Float) : Nat := v.floor.toUInt64.toNat
+
+/-- the pre-`floor` values `(slope bound, slope, intercept)` of `optimal_points` for a finite localisation error -/
+def optRaw (q : Rat) (n : Nat) : Float × Float × Float :=
+  let nf := n.toFloat
+  let x := ratToFloat q
+  (limitB nf, satur (factorB x) (limitB nf), satur (factorA x) (limitA nf))
+
+/-- `optimal_points(localization_error, num_points)` -/
+def optimalPointsF : OptPts := fun le n =>
+  if n ≤ 4 then .error "RuntimeError"
+  else match le with
+    | .nan => .error "ValueError"   -- `int(nan)`
+    | .inf => .ok (max 2 (floorNat (limitB n.toFloat)), max 2 (floorNat (limitA n.toFloat)))
+    | .fin q =>
+      let r := optRaw q n
+      .ok (max 2 (min (floorNat r.1) (floorNat r.2.1)), max 2 (floorNat r.2.2))
+
+/-- is a `floor` of `optimal_points` taken within 1e-6 of an integer (where the last bits of `pow` decide)?  Only the
+    values that go through `pow`/`cbrt`; `0.8 + 0.564 n` is the same double here and there. -/
+def floorTie (le : LocErr) (n : Nat) : Bool :=
+  let close (v : Float) : Bool := (v - (v + 0.5).floor).abs < 1e-6
+  match le with
+  | .nan => false
+  | .inf => close (limitA n.toFloat)
+  | .fin q => let r := optRaw q n; close r.2.1 || close r.2.2
+
+/-- `optimalPointsF`, answering the pseudo-error `tie` where `floorTie` holds (correspondence check only) -/
+def optimalPointsT : OptPts := fun le n =>
+  if n ≤ 4 then optimalPointsF le n else if floorTie le n then .error "tie" else optimalPointsF le n
+
+/-- is, for some number `p ≥ 2` of leading points, the intercept or the slope of the least-squares line through the first
+    `p` points zero within 1e-7 of the size of its terms?  There the branch of `locErr` is taken on the rounding noise of
+    `np.polyfit` (correspondence check only; no theorem is about it). -/
+def signTies (pts : List (Rat × Rat)) : Bool :=
+  (List.range (pts.length + 1)).any fun p =>
+    let q := pts.take p
+    decide (2 ≤ p) && decide (olsDen q ≠ 0) &&
+      (let K : Rat := (q.length : Rat)
+       let alpha := (q.map (·.1)).sum
+       let beta := (q.map fun x => x.1 * x.1).sum
+       let gamma := (q.map (·.2)).sum
+       let delta := (q.map fun x => x.1 * x.2).sum
+       let ga := (q.map fun x => rabs x.2).sum
+       let de := (q.map fun x => rabs (x.1 * x.2)).sum
+       decide (rabs (beta * gamma - alpha * delta) ≤ (1 / 10000000 : Rat) * (beta * ga + rabs alpha * de)) ||
+       decide (rabs (K * delta - alpha * gamma) ≤ (1 / 10000000 : Rat) * (K * de + rabs alpha * ga)))
+
+/-! ### `KymoTrack.estimate_diffusion` — the dispatcher: argument validation, option handling, defaults -/
+
+/-- `any(np.diff(frame_idx) > 1)` -/
+def hasGap (t : List Pt) : Bool := (diffI (t.map (·.1))).any fun d => decide (1 < d)
+
+/-- `_diffusion_gls` as a function of `(lags, msd)` and the number of points → `(intercept, slope, var_slope)`; the dispatcher
+    is modelled for EVERY such function. -/
+abbrev GlsFn := List MsdRow → Nat → Except String (Rat × Rat × Rat)
+
+/-- `estimate_diffusion_constant_simple(frame_idx, coordinate, time_step, max_lag, method)` for `method ∈ {ols, gls}`:
+    `max_lag < 2` is refused first, then GLS refuses missing frames; `std_err = sqrt(|var_slope|)/(2 dt)`. -/
+def estimateSimple (glsFn : GlsFn) (t : List Pt) (dt : Rat) (maxLag : Int) (gls : Bool) : Except String Est :=
+  if maxLag < 2 then .error "ValueError"
+  else if gls then
+    if hasGap t then .error "RuntimeError"
+    else match glsFn (msdCounts t (some maxLag)) t.length with
+      | .error e => .error e
+      | .ok r =>
+        let toTime := 1 / (2 * dt)
+        .ok ⟨r.2.1 * toTime, rabs r.2.2 * sqr toTime, r.1 / 2, true⟩
+  else olsFromRows (msdCounts t (some maxLag)) t.length dt true 1
+
+/-- `KymoTrack.estimate_diffusion(method, max_lag, localization_variance, variance_of_localization_variance)` on a
+    kymograph with blur constant `R`: returns the estimate and `num_lags` (`none` for cve).
+    `max_lag if max_lag else …`: `None` AND `0` mean "choose"; ols then asks `determine_optimal_points`, gls takes
+    `len(frame_idx)`. -/
+def estimateDiffusion (op : OptPts) (glsFn : GlsFn) (t : List Pt) (dt R : Rat) (method : String) (maxLag : Option Int)
+    (lv vlv : Option Rat) : Except String (Est × Option Int) :=
+  if method ≠ "cve" ∧ method ≠ "gls" ∧ method ≠ "ols" then .error "ValueError"
+  else if method = "cve" then (cve t dt R lv vlv).map fun c => (⟨c.D, c.var, c.lv, true⟩, none)
+  else if lv.isSome ∨ vlv.isSome then .error "NotImplementedError"
+  else
+    let chosen : Except String Int :=
+      match maxLag with
+      | some L => if L ≠ 0 then .ok L
+                  else if method = "ols" then (detOpt op t).map fun k => (k.1 : Int) else .ok (t.length : Int)
+      | none => if method = "ols" then (detOpt op t).map fun k => (k.1 : Int) else .ok (t.length : Int)
+    match chosen with
+    | .error e => .error e
+    | .ok L => (estimateSimple glsFn t dt L (method = "gls")).map fun e => (e, some L)
+
+/-- the GLS function of a run that only exercises the error branches of the dispatcher -/
+def glsUnmodelled : GlsFn := fun _ _ => .error "gls-not-modelled"
+
+/-! ### `_update_gls_estimate` (one step of the GLS fixed-point iteration) -/
+
+/-- `np.sum(f(i, j) * inverse_cov)` for an index-dependent factor: the sum over all cells `[r, c]` of `f r c w` -/
+def sum2 (W : List (List Rat)) (f : Nat → Nat → Rat → Rat) : Rat :=
+  (W.zipIdx.map fun rw => (rw.1.zipIdx.map fun cw => f rw.2 cw.2 cw.1).sum).sum
+
+structure GlsUpd where
+  change : Rat
+  slope : Rat
+  intercept : Rat
+  varSlope : Rat
+deriving Repr, DecidableEq
+
+/-- the five sums `kappa, lam, mu, nu, xi` of `_update_gls_estimate` (`i[r, c] = r + 1`, `j[r, c] = c + 1`,
+    `mean_squared_displacements * inverse_cov` broadcasts along the LAST axis: `msd[c] * W[r, c]`) -/
+def glsKappa (W : List (List Rat)) : Rat := sum2 W fun _ _ w => w
+def glsLam (W : List (List Rat)) : Rat := sum2 W fun r _ w => ((r : Rat) + 1) * w
+def glsMu (W : List (List Rat)) : Rat := sum2 W fun r c w => ((r : Rat) + 1) * ((c : Rat) + 1) * w
+def glsNu (W : List (List Rat)) (msd : List Rat) : Rat := sum2 W fun _ c w => msd.getD c 0 * w
+def glsXi (W : List (List Rat)) (msd : List Rat) : Rat := sum2 W fun r c w => ((r : Rat) + 1) * msd.getD c 0 * w
+
+/-- `_update_gls_estimate(inverse_cov, mean_squared_displacements, intercept, slope)` -/
+def glsUpdate (W : List (List Rat)) (msd : List Rat) (a b : Rat) : GlsUpd :=
+  let kappa := glsKappa W
+  let lam := glsLam W
+  let mu := glsMu W
+  let nu := glsNu W msd
+  let xi := glsXi W msd
+  let inv := 1 / (kappa * mu - lam * lam)
+  let a' := (mu * nu - lam * xi) * inv
+  let b' := (kappa * xi - lam * nu) * inv
+  ⟨rabs (a' - a) + rabs (b' - b), b', a', kappa / (kappa * mu - lam * lam)⟩
+
+
+/-- `_msd_diffusion_covariance(K, n, intercept, slope)` as a matrix -/
+def covMatrix (K : Nat) (n a b : Rat) : List (List Rat) :=
+  (List.range K).map fun r => (List.range K).map fun c => covEntry n a b (c + 1) (r + 1)
+
+/-- tolerance scales of `glsUpdate` `(slope, intercept, varSlope)`: absolute values instead of differences, times the
+    cancellation factor of the denominator (correspondence check only) -/
+def glsUpdateAbs (W : List (List Rat)) (msd : List Rat) : Rat × Rat × Rat :=
+  let kappa := sum2 W fun _ _ w => rabs w
+  let lam := sum2 W fun r _ w => ((r : Rat) + 1) * rabs w
+  let mu := sum2 W fun r c w => ((r : Rat) + 1) * ((c : Rat) + 1) * rabs w
+  let nu := sum2 W fun _ c w => rabs (msd.getD c 0 * w)
+  let xi := sum2 W fun r c w => ((r : Rat) + 1) * rabs (msd.getD c 0 * w)
+  let den := rabs (glsKappa W * glsMu W - glsLam W * glsLam W)
+  let cancel := (kappa * mu + lam * lam) / den
+  ((kappa * xi + lam * nu) / den * cancel, (mu * nu + lam * xi) / den * cancel, kappa / den * cancel)
+
+/-! ### `_diffusion_gls` — the fixed-point iteration.  Parameters of the model: the matrix inverse `inv` (the run uses
+    Gauss–Jordan elimination over `ℚ`, `matInv`; the code `np.linalg.inv`) and the rounding `rnd` of the iterated state
+    `(intercept, slope)` (the run rounds to the nearest double, as the code's state variables are doubles — this also keeps
+    the exact rationals from growing from iteration to iteration; the theorems hold for every `inv` and `rnd`). -/
+
+/-- `tolerance` -/
+def glsTol : Rat := 1 / 10000
+
+/-- `fallback`: `_diffusion_ols(lag_idx[:2], mean_squared_displacements[:2], num_points)` -/
+def glsFallback (rows : List MsdRow) (n : Nat) : Except String (Rat × Rat × Rat) :=
+  let pts := ptsOf (rows.take 2)
+  if olsDen pts = 0 then .error "Error:ZeroDivisionError"
+  else
+    let ab := olsLine pts
+    .ok (ab.1, ab.2, olsVarSlope (pts.map (·.1)) (n : Rat) ab.1 ab.2)
+
+/-- the `for … else` loop of `_diffusion_gls` (`fuel` iterations left; falling out of it is the fallback) -/
+def glsLoop (inv : List (List Rat) → Option (List (List Rat))) (rnd : Rat → Rat) (rows : List MsdRow) (msd : List Rat)
+    (n : Nat) : Nat → Rat → Rat → Except String (Rat × Rat × Rat)
+  | 0, _, _ => glsFallback rows n
+  | fuel + 1, a, b =>
+    match inv (covMatrix msd.length (n : Rat) a b) with
+    | none => glsFallback rows n
+    | some W =>
+      if glsKappa W * glsMu W - glsLam W * glsLam W = 0 then .error "nonfinite"
+      else
+        let u := glsUpdate W msd a b
+        let a' := rnd u.intercept
+        let b' := rnd u.slope
+        if rabs (a' - a) + rabs (b' - b) < glsTol then .ok (a', b', u.varSlope)
+        else glsLoop inv rnd rows msd n fuel a' b'
+
+/-- `_diffusion_gls(lag_idx, mean_squared_displacements, num_points)` -/
+def glsFit (inv : List (List Rat) → Option (List (List Rat))) (rnd : Rat → Rat) : GlsFn := fun rows n =>
+  match rows.map (·.msd) with
+  | m0 :: m1 :: rest => glsLoop inv rnd rows (m0 :: m1 :: rest) n 100 (2 * m0 - m1) (m1 - m0)
+  | _ => .error "IndexError"
+
+/-! #### the instances the run executes -/
+
+/-- one column of Gauss–Jordan elimination on the augmented matrix: pivot = first row at or below the diagonal with a
+    non-zero entry -/
+def gjStep (A : List (List Rat)) (c : Nat) : Option (List (List Rat)) :=
+  match (A.drop c).findIdx? (fun row => row.getD c 0 != 0) with
+  | none => none
+  | some k =>
+    let i := c + k
+    let pr := A.getD i []
+    let p := pr.getD c 0
+    let prN := pr.map (· / p)
+    let A1 := (A.set i (A.getD c [])).set c prN
+    some (A1.zipIdx.map fun rw =>
+      if rw.2 = c then rw.1 else List.zipWith (fun x y => x - rw.1.getD c 0 * y) rw.1 prN)
+
+/-- the inverse of a square matrix over `ℚ` (`none` when singular) -/
+def matInv (M : List (List Rat)) : Option (List (List Rat)) :=
+  let K := M.length
+  let aug := M.zipIdx.map fun rw => rw.1 ++ (List.range K).map fun j => if rw.2 = j then (1 : Rat) else 0
+  ((List.range K).foldlM gjStep aug).map fun A => A.map (·.drop K)
+
+/-- the exact value of a finite double -/
+def floatToRat (f : Float) : Rat :=
+  let b : Nat := f.toBits.toNat
+  let e : Nat := (b >>> 52) % 2048
+  let m : Nat := b % 2 ^ 52
+  let full : Nat := m + 2 ^ 52
+  let mag : Rat :=
+    if e = 0 then (m : Rat) / ((2 ^ 1074 : Nat) : Rat)
+    else if 1075 ≤ e then ((full * 2 ^ (e - 1075) : Nat) : Rat)
+    else (full : Rat) / ((2 ^ (1075 - e) : Nat) : Rat)
+  if b >>> 63 = 1 then -mag else mag
+
+/-- round to the nearest double -/
+def rndDouble (q : Rat) : Rat := floatToRat (ratToFloat q)
+
+/-- is some iteration's stop criterion `change < tolerance` within 1e-3·tolerance of equality (the run's instance; the
+    correspondence check does not compare such cases)? -/
+def glsTieLoop (rows : List MsdRow) (msd : List Rat) (n : Nat) : Nat → Rat → Rat → Bool
+  | 0, _, _ => false
+  | fuel + 1, a, b =>
+    match matInv (covMatrix msd.length (n : Rat) a b) with
+    | none => false
+    | some W =>
+      if glsKappa W * glsMu W - glsLam W * glsLam W = 0 then false
+      else
+        let u := glsUpdate W msd a b
+        let a' := rndDouble u.intercept
+        let b' := rndDouble u.slope
+        let ch := rabs (a' - a) + rabs (b' - b)
+        if rabs (ch - glsTol) ≤ glsTol / 1000 + (rabs a' + rabs b') / 1000000000 then true
+        else if ch < glsTol then false
+        else glsTieLoop rows msd n fuel a' b'
+
+def glsModelled : GlsFn := fun rows n =>
+  match rows.map (·.msd) with
+  | m0 :: m1 :: rest =>
+    if glsTieLoop rows (m0 :: m1 :: rest) n 100 (2 * m0 - m1) (m1 - m0) then .error "tie"
+    else glsFit matInv rndDouble rows n
+  | _ => glsFit matInv rndDouble rows n
+
 /-! ### tolerance scales (DESIGN §2.2) — the same formulas with every subtraction replaced by an
     addition of absolute values; used only by the correspondence check to bound the rounding error of
     the implementation's doubles in a conditioning-aware way.  No theorem is about them. -/
@@ -419,7 +781,16 @@ def ensembleVarScales (tracks : List (List MsdRow)) (lags : List Int) : List Rat
   `c09.wmean [means] [counts]`            → `ok mean var countSum ess  sVar`
   `c09.ensmsd [f;f…] [x;x…] L|N minCount` → `ok [lags] [mean] [var] [counts] [ess] [sVar]`
   `c09.enscve [f;…] [x;…] dt R`           → `ok value var lv vlv numPoints  sValue sVar sLv sVlv`
-  `c09.ensols [f;…] [x;…] dt L`           → `ok value var lv  sValue sVar sLv`            -/
+  `c09.ensols [f;…] [x;…] dt L`           → `ok value var lv  sValue sVar sLv`
+  `c09.optpts [frames] [xs]`              → `ok numSlope numIntercept`  (`determine_optimal_points`) | `tie`
+  `c09.olsauto [frames] [xs] dt`          → `ok value var lv numLags  sValue sVar sLv` (`max_lag=None`) | `tie`
+  `c09.ensolsauto [f;…] [x;…] dt`         → `ok value var lv numLags  sValue sVar sLv` | `tie`
+  `c09.optraw le|inf|nan n`               → `ok numSlope numIntercept`  (`optimal_points`) | `tie`
+  `c09.glsupd [row;row;…] [msd] a b`      → `ok change slope intercept varSlope  sSlope sIntercept sVar` (`_update_gls_estimate`)
+  `c09.est [frames] [xs] dt R method L|N lv|N vlv|N` → `ok value var lv numLags|N` (`KymoTrack.estimate_diffusion`, the dispatcher;
+                                             a GLS fit of a track of more than 7 points answers `gls-not-modelled`:
+                                             exact elimination is too slow there; `tie` also when a GLS stop criterion is within 0.1 %)
+  (`tie`: a sign / `floor` the code branches on is decided by the last bits of a double: nothing to compare) -/
 def handle : List String → Option String
   | ["c09.msd", fs, xs, L] => do
     let t ← mkTrack? fs xs
@@ -501,6 +872,59 @@ def handle : List String → Option String
             (rows.length + 1) dt (mean (rows.map (·.st.ess)))
           showRats [e.value, e.var, e.lv, s.value, s.var, s.lv]
         | .error _ => "unreachable") (ensembleOls ts dt L))
+  | ["c09.optpts", fs, xs] => do
+    let t ← mkTrack? fs xs
+    if 5 ≤ t.length ∧ signTies (ptsOf (msdCounts t none)) then some "tie"
+    else some (showExcept (fun (k : Nat × Nat) => toString k.1 ++ " " ++ toString k.2) (detOpt optimalPointsT t))
+  | ["c09.olsauto", fs, xs, dt] => do
+    let t ← mkTrack? fs xs
+    let dt ← rat? dt
+    if 5 ≤ t.length ∧ signTies (ptsOf (msdCounts t none)) then some "tie"
+    else some (showExcept (fun (r : Est × Nat) =>
+      let e := r.1
+      let s := olsScaleFromRows (msdCounts t (some (r.2 : Int))) t.length dt 1
+      showRats [e.value] ++ " " ++ (if e.varDefined then showRat e.var else "nonfinite") ++ " "
+        ++ showRats [e.lv] ++ " " ++ toString r.2 ++ " " ++ showRats [s.value, s.var, s.lv]) (olsAuto optimalPointsT t dt))
+  | ["c09.ensolsauto", fs, xs, dt] => do
+    let ts ← mkTracks? fs xs
+    let dt ← rat? dt
+    match ensembleMsd ts none 2 with
+    | .error e => some e
+    | .ok rows =>
+      if 5 ≤ rows.length + 1 ∧ signTies (rows.map fun r => ((r.lag : Rat), r.st.mean)) then some "tie"
+      else some (showExcept (fun (r : Est × Nat) =>
+        let e := r.1
+        let s := olsScaleFromRows ((rows.take r.2).map fun r => ⟨r.lag, r.st.mean, 0⟩)
+          (rows.length + 1) dt (mean (rows.map (·.st.ess)))
+        showRats [e.value, e.var, e.lv] ++ " " ++ toString r.2 ++ " " ++ showRats [s.value, s.var, s.lv])
+        (ensembleOlsAuto optimalPointsT ts dt))
+  | ["c09.optraw", le, n] => do
+    let n ← nat? n
+    let le ← (if le == "inf" then some LocErr.inf else if le == "nan" then some LocErr.nan else (rat? le).map LocErr.fin)
+    some (showExcept (fun (k : Nat × Nat) => toString k.1 ++ " " ++ toString k.2) (optimalPointsT le n))
+  | ["c09.glsupd", W, msd, a, b] => do
+    let W ← ratListList? W
+    let msd ← ratList? msd
+    let a ← rat? a
+    let b ← rat? b
+    if W.length ≠ msd.length ∨ W.any (fun row => row.length != msd.length) then none
+    else if glsKappa W * glsMu W - glsLam W * glsLam W = 0 then some "singular"
+    else
+      let u := glsUpdate W msd a b
+      let s := glsUpdateAbs W msd
+      some ("ok " ++ showRats [u.change, u.slope, u.intercept, u.varSlope, s.1, s.2.1, s.2.2])
+  | ["c09.est", fs, xs, dt, R, method, L, lv, vlv] => do
+    let t ← mkTrack? fs xs
+    let dt ← rat? dt
+    let R ← rat? R
+    let L ← optInt? L
+    let lv ← optRat? lv
+    let vlv ← optRat? vlv
+    let auto := (method == "ols") && (L == none || L == some 0) && lv == none && vlv == none
+    if auto ∧ 5 ≤ t.length ∧ signTies (ptsOf (msdCounts t none)) then some "tie"
+    else some (showExcept (fun (r : Est × Option Int) =>
+      showRats [r.1.value] ++ " " ++ (if r.1.varDefined then showRat r.1.var else "nonfinite") ++ " " ++ showRats [r.1.lv]
+        ++ " " ++ showOptInt r.2) (estimateDiffusion optimalPointsT (if t.length ≤ 7 then glsModelled else glsUnmodelled) t dt R method L lv vlv))
   | _ => none
 
 end Verif.C09
